@@ -6219,11 +6219,15 @@ func NewLsAttributeTLVs(lsAttr *LsAttribute) []LsTLVInterface {
 	if lsAttr.Link.Name != nil {
 		tlvs = append(tlvs, NewLsTLVLinkName(lsAttr.Link.Name))
 	}
-	if lsAttr.Link.LocalRouterID != nil {
-		tlvs = append(tlvs, NewLsTLVLocalIPv4RouterID(lsAttr.Link.LocalRouterID))
+	// The Router-ID of Local Node TLVs (1028, 1029) are node and link
+	// attribute TLVs alike and PathAttributeLs.Extract, which does not know
+	// the NLRI type, reports the one TLV of an attribute in Node and in
+	// Link: the same address in both places is one TLV, not two.
+	if id := lsAttr.Link.LocalRouterID; id != nil && (lsAttr.Node.LocalRouterID == nil || *lsAttr.Node.LocalRouterID != *id) {
+		tlvs = append(tlvs, NewLsTLVLocalIPv4RouterID(id))
 	}
-	if lsAttr.Link.LocalRouterIDv6 != nil {
-		tlvs = append(tlvs, NewLsTLVLocalIPv6RouterID(lsAttr.Link.LocalRouterIDv6))
+	if id := lsAttr.Link.LocalRouterIDv6; id != nil && (lsAttr.Node.LocalRouterIDv6 == nil || *lsAttr.Node.LocalRouterIDv6 != *id) {
+		tlvs = append(tlvs, NewLsTLVLocalIPv6RouterID(id))
 	}
 	if lsAttr.Link.RemoteRouterID != nil {
 		tlvs = append(tlvs, NewLsTLVRemoteIPv4RouterID(lsAttr.Link.RemoteRouterID))
